@@ -341,22 +341,68 @@ def rule_K1(ctx) -> None:
             ctx.proved("K1", f"const[{k}]", M_INIT)
         else:
             ctx.refuted("K1", f"const[{k}]", f"{mod.consts[k]!r}!={v!r}", M_INIT, f"{k} = {mod.consts[k]!r}; the proto3 JSON mapping (and the reference) use {v!r}", "M(f=float('inf')).to_json()")
-    # the constants are what _dump_float / _parse_float return / compare with
-    for q, mode in (("_dump_float", "ret"), ("_parse_float", "cmp")):
-        fn = mod.func(q)
-        paths = Interp(mod).run(fn)
-        ctx.count(len(paths))
-        seen = set()
+    # the special spellings are what _dump_float emits for the three IEEE specials and what _parse_float reads back: both
+    # functions are evaluated per path and the path taken by each distinguished input is selected with the analyser's
+    # evaluator of symbolic terms (vt.concrete)
+    from .. import concrete
+    import math as _math
+    specials = {"INFINITY": _math.inf, "NEG_INFINITY": -_math.inf, "NAN": _math.nan}
+    if set(specials) != set(consts):
+        raise AnalysisError("reference JSON constants changed")
+
+    def taken(paths, env):
+        out = []
         for p in paths:
-            if mode == "ret" and p.value is not None and p.value[0] == "c" and isinstance(p.value[1], str):
-                seen.add(p.value[1])
-            for k in p.valuation:
-                if mode == "cmp" and k[0] == "op" and k[1] == "==" and k[3][0] == "c" and isinstance(k[3][1], str):
-                    seen.add(k[3][1])
-        if seen == set(consts.values()):
-            ctx.proved("K1", f"{q}:special-names", mod.loc(fn))
+            try:
+                if all(bool(concrete.ev(k, env)) == bool(v) for k, v in p.valuation.items()):
+                    out.append(p)
+            except concrete.Unknown as e:
+                return None, str(e)
+        return out, ""
+
+    for q in ("_dump_float", "_parse_float"):
+        fn = mod.func(q)
+        params = [a.arg for a in fn.args.args]
+        if len(params) != 1:
+            raise AnalysisError(f"{q} no longer takes exactly one argument")
+        paths = Interp(mod, fork_ifexp=True).run(fn)
+        ctx.count(len(paths))
+        if q == "_dump_float":
+            cases = [(f"{k}", v, consts[k]) for k, v in specials.items()] + [("finite", 1.5, 1.5), ("zero", 0.0, 0.0), ("negative", -2.25, -2.25), ("int", 3, 3)]
         else:
-            ctx.refuted("K1", f"{q}:special-names", ",".join(sorted(seen)), mod.loc(fn), f"{q} uses {sorted(seen)}; expected exactly {sorted(consts.values())}")
+            cases = [(f"{k}", consts[k], v) for k, v in specials.items()] + [("number", 1.5, 1.5), ("numeric-string", "2.5", 2.5)]
+        bad = []
+        unknown = []
+        for label, arg, want in cases:
+            env = {params[0]: arg}
+            sel, why = taken(paths, env)
+            if sel is None:
+                unknown.append(f"{label}: {why}")
+                continue
+            if len(sel) != 1:
+                unknown.append(f"{label}: {len(sel)} paths selected")
+                continue
+            p = sel[0]
+            if p.outcome != "return" or p.value is None:
+                bad.append((label, arg, f"<{p.outcome}>", want))
+                continue
+            try:
+                got = concrete.ev(p.value, env)
+            except concrete.Unknown as e:
+                unknown.append(f"{label}: result {show(p.value)} ({e})")
+                continue
+            ok = concrete.same_float(got, want) if isinstance(want, float) else (type(got) is type(want) and got == want)
+            if not ok:
+                bad.append((label, arg, got, want))
+        name = f"{q}:special-names"
+        if bad:
+            label, arg, got, want = bad[0]
+            ctx.refuted("K1", name, f"{label}->{got!r}", mod.loc(fn), f"{q}({arg!r}) yields {got!r}; the proto3 JSON mapping requires {want!r} ({len(bad)} of {len(cases)} distinguished inputs differ)",
+                        f"{q}({arg!r})")
+        elif unknown:
+            ctx.inconclusive("K1", name, "; ".join(unknown)[:300], mod.loc(fn))
+        else:
+            ctx.proved("K1", name, mod.loc(fn), f"{len(cases)} distinguished inputs over {len(paths)} paths")
     i64 = set(mod.consts.get("INT_64_TYPES", ()))
     if i64 == SPEC_INT64_JSON:
         ctx.proved("K1", "INT_64_TYPES", M_INIT)
